@@ -22,6 +22,10 @@ func main() {
 		checkMain(os.Args[2:])
 		return
 	}
+	if len(os.Args) > 1 && os.Args[1] == "exec" {
+		execMain(os.Args[2:])
+		return
+	}
 	var funcs multiFlag
 	repo := flag.String("repo", "/repo", "repository root")
 	prop := flag.String("property", "", "select contracts tagged with this property")
@@ -178,4 +182,56 @@ func contains(xs []string, x string) bool {
 		}
 	}
 	return false
+}
+
+// execMain: run contracts as executable checks against the real functions.
+func execMain(args []string) {
+	fs := newFlagSet("exec")
+	repo := fs.String("repo", "/repo", "repository root")
+	prop := fs.String("property", "", "only contracts tagged with this property")
+	fn := fs.String("func", "", "only this function (pkg.Name)")
+	budget := fs.Int("budget", 20000, "inputs per function")
+	seed := fs.Int64("seed", 1, "random seed")
+	show := fs.Bool("show", false, "print the generated test")
+	fs.Parse(args)
+	eng, err := loadEngine(*repo, []string{"./..."})
+	dieIf(err)
+	dir, err := os.MkdirTemp("", "govc.exec.")
+	dieIf(err)
+	defer os.RemoveAll(dir)
+	bad := 0
+	var cons []*Contract
+	for _, c := range eng.all {
+		if c.kind != "func" || contains(c.props, "CANARY") {
+			continue
+		}
+		name := c.pkg.Types.Name() + "." + c.name
+		if *fn != "" && name != *fn {
+			continue
+		}
+		if *prop != "" && !contains(c.props, *prop) {
+			continue
+		}
+		cons = append(cons, c)
+	}
+	results := eng.runContractTests(cons, *seed, *budget, dir)
+	for _, c := range cons {
+		r := results[c]
+		name := c.pkg.Types.Name() + "." + c.name
+		if *show {
+			fmt.Println(r.TestSrc)
+		}
+		switch {
+		case r.Violation != "":
+			bad++
+			fmt.Printf("VIOLATED %-50s %s: %s inputs=%s\n", name, r.Violation, r.Clause, r.Inputs)
+		case !r.Supported:
+			fmt.Printf("skip     %-50s %s\n", name, firstLines(r.Why, 1))
+		default:
+			fmt.Printf("ok       %-50s clauses=%d executed=%d skipped=%d\n", name, r.Clauses, r.Executed, r.Skipped)
+		}
+	}
+	if bad > 0 {
+		os.Exit(1)
+	}
 }
